@@ -255,11 +255,15 @@ def C12_contains(name: str, a: int, b: int) -> bool:
   return (name in rl) == want
 
 
-def C12_protocol_paths(proto: int, vi: int, which: int) -> bool:
+_PP_TS = [(100, '100'), (100.75, '100.75'), (1700000065.25, '1700000065.25')]
+
+
+def C12_protocol_paths(proto: int, vi: int, which: int, ti: int) -> bool:
   """
   pre: 0 <= proto <= 2
   pre: 0 <= vi <= 2
   pre: 0 <= which <= 2
+  pre: 0 <= ti <= 2
   post: __return__
   """
   # the same admission gate sits behind every listener: a parsed datapoint reaches the pipeline
@@ -268,6 +272,8 @@ def C12_protocol_paths(proto: int, vi: int, which: int) -> bool:
   val = [1.5, NAN, 3.0][vi]
   bl = which == 1
   wl_reject = which == 2
+  ts, text_ts = _PP_TS[int(ti)]
+  sset('MIN_TIMESTAMP_RESOLUTION', 0)          # no rounding configured: a sub-second timestamp passes unchanged on every protocol
   cls = [protocols.MetricLineReceiver, protocols.MetricDatagramReceiver, protocols.MetricPickleReceiver][proto]
   p = make_receiver(cls, connect=(proto != 1))
   old = (protocols.BlackList, protocols.WhiteList)
@@ -275,14 +281,14 @@ def C12_protocol_paths(proto: int, vi: int, which: int) -> bool:
   try:
     with Recorder() as rec:
       if proto == 0:
-        p.lineReceived(('m.x %s 100' % text_v).encode())
+        p.lineReceived(('m.x %s %s' % (text_v, text_ts)).encode())
       elif proto == 1:
-        p.datagramReceived(('m.x %s 100\n' % text_v).encode(), ('h', 1))
+        p.datagramReceived(('m.x %s %s\n' % (text_v, text_ts)).encode(), ('h', 1))
       else:
         class _U(object):
           @staticmethod
           def loads(data):
-            return [('m.x', (100, val))]
+            return [('m.x', (ts, val))]
         p.unpickler = _U
         p.stringReceived(b'frame')
   finally:
@@ -291,7 +297,7 @@ def C12_protocol_paths(proto: int, vi: int, which: int) -> bool:
   cover('fed')
   if bl or wl_reject or vi == 1:
     return rec.items == []
-  return rec.items == [('m.x', (100.0, val))]
+  return rec.items == [('m.x', (float(ts), val))]
 
 
 _PROTO = [('line', 'proto == 0'), ('udp', 'proto == 1'), ('pickle', 'proto == 2')]
